@@ -224,4 +224,50 @@ example (f1 : Nat) (as1 : List Term) (e1 : VM.End)
     ⟨fragI1.clauses, by decide +kernel, by decide +kernel, (fun _ h => by cases h), by decide +kernel⟩
     (by decide) f1 40 as1 _ e1 _ h1 sldI3 hcalls
 
+/-! ## stage 3b: once/1
+
+      q(a).  q(b).
+      first(X) :- once(q(X)).
+      u(X, Y) :- once(q(X)), q(Y).        % the goals after once/1 are not affected by its cut
+      u(z, z).
+      ?- first(X).      one answer a
+      ?- u(X, Y).       three answers (a,a), (a,b), (z,z)
+
+  (`#eval Driver.C01.vmLine` = `specLine … false` on both.) -/
+
+def first (a : Term) : Term := .app "first" (.cons a .nil)
+def once (a : Term) : Term := .app "once" (.cons a .nil)
+def u (a b : Term) : Term := .app "u" (.cons a (.cons b .nil))
+
+def progO : List Term :=
+  [q (.atom "a"), q (.atom "b"),
+   SLD.rule (first (v 0)) (once (q (v 0))),
+   SLD.rule (u (v 0) (v 1)) (conj (once (q (v 0))) (q (v 1))),
+   u (.atom "z") (.atom "z")]
+
+theorem fragO1 : CtlFrag progO (first (v 0)) :=
+  ⟨by decide +kernel, by decide +kernel, by decide +kernel, (fun _ h => by cases h), by decide +kernel⟩
+
+theorem sldO1 : SLD.solveQuery 40 progO (first (v 0)) 5 = some ([first (.atom "a")], .exhausted) := by
+  decide +kernel
+
+theorem sldO2 : SLD.solveQuery 40 progO (u (v 0) (v 1)) 5 =
+    some ([u (.atom "a") (.atom "a"), u (.atom "a") (.atom "b"), u (.atom "z") (.atom "z")], .exhausted) := by
+  decide +kernel
+
+example (f1 : Nat) (as1 : List Term) (e1 : VM.End)
+    (h1 : VM.runQuery f1 progO (Driver.C01.shiftVars 10 (first (v 0))) 5 = some (as1, e1))
+    (hcalls : CallsOK true f1 progO (first (v 0)) 5) :
+    Forall2 (AnsRel (Driver.C01.shiftVars 10 (first (v 0)))) as1 [first (.atom "a")] ∧ endAgree e1 .exhausted :=
+  vm_refines_sld_ctl progO _ 5 fragO1 (by decide) f1 40 as1 _ e1 _ h1 sldO1 hcalls
+
+example (f1 : Nat) (as1 : List Term) (e1 : VM.End)
+    (h1 : VM.runQuery f1 progO (Driver.C01.shiftVars 10 (u (v 0) (v 1))) 5 = some (as1, e1))
+    (hcalls : CallsOK true f1 progO (u (v 0) (v 1)) 5) :
+    Forall2 (AnsRel (Driver.C01.shiftVars 10 (u (v 0) (v 1)))) as1
+      [u (.atom "a") (.atom "a"), u (.atom "a") (.atom "b"), u (.atom "z") (.atom "z")] ∧ endAgree e1 .exhausted :=
+  vm_refines_sld_ctl progO _ 5
+    ⟨fragO1.clauses, by decide +kernel, by decide +kernel, (fun _ h => by cases h), by decide +kernel⟩
+    (by decide) f1 40 as1 _ e1 _ h1 sldO2 hcalls
+
 end PrologVerif.Refine.Example
